@@ -132,7 +132,11 @@ func (openerSuite) Gen(r *rand.Rand, i int) Case {
 	}
 	c.Ops = append(c.Ops, fmt.Sprintf("should %d", t))
 	// tail: roll the window partly / fully, non-monotonic probes, live thresholds
-	for j, k := 0, r.Intn(6); j < k; j++ {
+	tail := r.Intn(6)
+	if r.Intn(20) == 0 {
+		tail = 60 + r.Intn(120) // a long tail: the window wraps around many times
+	}
+	for j, k := 0, tail; j < k; j++ {
 		switch r.Intn(5) {
 		case 0:
 			t += width
